@@ -175,7 +175,7 @@ func checkC05(P *Program, r *Result, tier string) {
 	// the acquire routines: reachable from Malloc, take an int, store to buf
 	var acquires []*ssa.Function
 	for _, f := range P.reachable([]*ssa.Function{ms["Malloc"]}, inBufiox) {
-		if f != ms["Malloc"] && len(f.Params) == 2 && isInteger(f.Params[1].Type()) && typeIsPtrTo(f.Params[0].Type(), "DefaultWriter") {
+		if f != ms["Malloc"] && len(f.Params) >= 2 && isInteger(f.Params[1].Type()) && typeIsPtrTo(f.Params[0].Type(), "DefaultWriter") {
 			acquires = append(acquires, f)
 		}
 	}
@@ -207,7 +207,7 @@ func checkC05(P *Program, r *Result, tier string) {
 					isAcq = true
 				}
 			}
-			if !isAcq || len(cc.Common().Args) != 2 || cc.Common().Args[0] != ssa.Value(fn.Params[0]) {
+			if !isAcq || len(cc.Common().Args) < 2 || cc.Common().Args[0] != ssa.Value(fn.Params[0]) {
 				continue
 			}
 			blk := cc.Block()
@@ -225,7 +225,15 @@ func checkC05(P *Program, r *Result, tier string) {
 			}
 			if id, isAtom := singleAtom(d.Cap); isAtom {
 				a := fa.A.at(id)
-				a.Facts = append(a.Facts, ineqLE(d.Len.add(fa.expand(cc.Common().Args[1])), d.Cap))
+				room := ineqLE(d.Len.add(fa.expand(cc.Common().Args[1])), d.Cap)
+				if ei := errIndex(cc.Common().StaticCallee()); ei >= 0 {
+					// only where the routine reported no error
+					if ev := resultValue(cc, ei); ev != nil {
+						fa.A.addTrig(a, fa.A.newTrigger("room-if-nil", []*Lin{ineqLE(fa.nilExpand(ev), linConst(0))}, []*Lin{room}))
+					}
+				} else {
+					a.Facts = append(a.Facts, room)
+				}
 			}
 		}
 	}
@@ -233,23 +241,30 @@ func checkC05(P *Program, r *Result, tier string) {
 	if fn := ms["Malloc"]; fn != nil {
 		fa := A.fa(fn)
 		n := fa.expand(fn.Params[1])
-		for _, ret := range returnsOf(fn) {
-			if c, ok := fa.nilExpand(ret.Results[1]).constVal(); !ok || c.Sign() != 0 {
+		nSucc := 0
+		for _, rc := range retCases(fn) {
+			// a way out that is not known to report an error is a success: every merged exit is split per incoming edge
+			if success, known := caseSuccess(rc); known && !success {
+				continue
+			} else if !known && fa.prove(ineqGE(fa.nilExpand(rc.results[len(rc.results)-1]), linConst(1)), rc.at.Block(), rootCtx) {
 				continue
 			}
-			d := fa.sliceDesc(ret.Results[0])
+			nSucc++
+			ret, res, at, blk := rc.ret, rc.results, rc.at, rc.at.Block()
+			_ = at
+			d := fa.sliceDesc(res[0])
 			// the buffer as it was right after acquire = the base of the returned slice
 			ok := d != nil && d.Root != nil && isLoadOfField(fn, d.Root, "buf")
 			var base *SliceDesc
 			if ok {
 				base = fa.sliceDesc(d.Root)
-				ok = fa.proveEq(d.Off, base.Len, ret.Block()) && fa.proveEq(d.Len, n, ret.Block())
+				ok = fa.proveEq(d.Off, base.Len, blk) && fa.proveEq(d.Len, n, blk)
 			}
 			r.add("CURSOR", shortName(fn), "return", "region is buf[len : len+n]", P.pos(instrPos(ret)), ok, "")
 			ext := false
 			if base != nil {
-				if cur := cellSliceAt(fa, ret, "buf"); cur != nil {
-					ext = fa.proveEq(cur.Len, base.Len.add(n), ret.Block()) && fa.proveEq(cur.Off, base.Off, ret.Block())
+				if cur := cellSliceAt(fa, at, "buf"); cur != nil {
+					ext = fa.proveEq(cur.Len, base.Len.add(n), blk) && fa.proveEq(cur.Off, base.Off, blk)
 					if cur.Root != base.Root {
 						// same backing buffer: the store re-slices a load of the same version
 						ext = ext && isLoadOfField(fn, cur.Root, "buf")
@@ -258,16 +273,24 @@ func checkC05(P *Program, r *Result, tier string) {
 			}
 			r.add("CURSOR", shortName(fn), "return", "buffer extended by exactly n (next region starts where this one ends)", P.pos(instrPos(ret)), ext, "")
 		}
+		r.require("Malloc: a way out that can succeed", nSucc > 0)
 	}
 	if fn := ms["WriteBinary"]; fn != nil {
 		fa := A.fa(fn)
 		roomFacts(fa, fn)
 		bs := fa.sliceDesc(fn.Params[1])
-		for _, ret := range returnsOf(fn) {
-			if c, ok := fa.nilExpand(ret.Results[1]).constVal(); !ok || c.Sign() != 0 {
+		nSucc := 0
+		for _, rc := range retCases(fn) {
+			// a way out that is not known to report an error is a success: every merged exit is split per incoming edge
+			if success, known := caseSuccess(rc); known && !success {
+				continue
+			} else if !known && fa.prove(ineqGE(fa.nilExpand(rc.results[len(rc.results)-1]), linConst(1)), rc.at.Block(), rootCtx) {
 				continue
 			}
-			cp := builtinCall(ret.Results[0], "copy")
+			nSucc++
+			ret, res, at, blk := rc.ret, rc.results, rc.at, rc.at.Block()
+			_ = at
+			cp := builtinCall(res[0], "copy")
 			ok := false
 			roomDetail := ""
 			ext := false
@@ -285,16 +308,16 @@ func checkC05(P *Program, r *Result, tier string) {
 						ok = false
 						roomDetail = "room for the whole payload is not guaranteed where it is copied (copy would silently truncate)"
 					}
-					if cur := cellSliceAt(fa, ret, "buf"); cur != nil {
-						ext = fa.proveEq(cur.Len, base.Len.add(fa.expand(cp)), ret.Block())
+					if cur := cellSliceAt(fa, at, "buf"); cur != nil {
+						ext = fa.proveEq(cur.Len, base.Len.add(fa.expand(cp)), blk)
 					}
 					_ = full
 				}
 			}
-			if k, isC := constInt(ret.Results[0]); cp == nil && isC && k == 0 {
+			if k, isC := constInt(res[0]); cp == nil && isC && k == 0 {
 				// nothing written and 0 reported: exact for an empty payload with the buffer untouched
 				key := "P:" + fn.Params[0].Name() + ".buf"
-				if fa.prove(ineqLE(bs.Len, linConst(0)), ret.Block(), rootCtx) && fa.mem.versionAt(ret, key) == fa.mem.entry[key] {
+				if fa.prove(ineqLE(bs.Len, linConst(0)), blk, rootCtx) && fa.mem.versionAt(at, key) == fa.mem.entry[key] {
 					r.add("CURSOR", shortName(fn), "return", "an empty payload leaves the buffer as it is and reports 0", P.pos(instrPos(ret)), true, "")
 					continue
 				}
@@ -303,7 +326,7 @@ func checkC05(P *Program, r *Result, tier string) {
 				// the same effect written as an in-place append: buf = append(buf, bs[:n]...) with n ≤ cap−len proved
 				for _, st := range storesTo(fn, "buf") {
 					ap := builtinCall(st.Val, "append")
-					if ap == nil || !instrDominates(st, ret) || !isLoadOfField(fn, ap.Common().Args[0], "buf") {
+					if ap == nil || !instrDominates(st, at) || !isLoadOfField(fn, ap.Common().Args[0], "buf") {
 						continue
 					}
 					base := fa.sliceDesc(ap.Common().Args[0])
@@ -313,7 +336,7 @@ func checkC05(P *Program, r *Result, tier string) {
 					}
 					noRealloc := fa.prove(ineqLE(base.Len.add(src.Len), base.Cap), st.Block(), rootCtx)
 					fromStart := fa.proveEq(src.Off, linConst(0), st.Block())
-					count := fa.proveEq(fa.expand(ret.Results[0]), src.Len, ret.Block())
+					count := fa.proveEq(fa.expand(res[0]), src.Len, blk)
 					// n = min(len(bs), cap−len): either everything, or exactly the room that is left
 					full := fa.prove(ineqLE(src.Len, bs.Len), st.Block(), rootCtx)
 					// … and it is one of the two, on every way the count is computed
@@ -335,6 +358,7 @@ func checkC05(P *Program, r *Result, tier string) {
 			r.add("CURSOR", shortName(fn), "return", "payload copied into buf[len:cap] from bs[0:]", P.pos(instrPos(ret)), ok, roomDetail)
 			r.add("CURSOR", shortName(fn), "return", "buffer extended by exactly the copied count", P.pos(instrPos(ret)), ext, "")
 		}
+		r.require("WriteBinary: a way out that can succeed", nSucc > 0)
 	}
 	if fn := ms["WrittenLen"]; fn != nil {
 		ok := false
@@ -357,6 +381,12 @@ func checkC05(P *Program, r *Result, tier string) {
 		n := fa.expand(fn.Params[1])
 		key := "P:" + fn.Params[0].Name() + ".buf"
 		for _, ret := range returnsOf(fn) {
+			// an acquire routine that can refuse (it reports an error) promises room only when it reports none
+			if nr := len(ret.Results); nr > 0 && isErrorType(ret.Results[nr-1].Type()) {
+				if fa.prove(ineqGE(fa.nilExpand(ret.Results[nr-1]), linConst(1)), ret.Block(), rootCtx) {
+					continue
+				}
+			}
 			// one case per way of reaching the return (a join is split into its incoming edges)
 			type rcase struct {
 				ver  *MemVer
@@ -387,7 +417,7 @@ func checkC05(P *Program, r *Result, tier string) {
 					if cc, ok := rc.ver.Instr.(*ssa.Call); ok {
 						deleg := false
 						for _, a := range acquires {
-							if cc.Common().StaticCallee() == a && len(cc.Common().Args) == 2 && cc.Common().Args[1] == ssa.Value(fn.Params[1]) && cc.Common().Args[0] == ssa.Value(fn.Params[0]) {
+							if cc.Common().StaticCallee() == a && len(cc.Common().Args) >= 2 && cc.Common().Args[1] == ssa.Value(fn.Params[1]) && cc.Common().Args[0] == ssa.Value(fn.Params[0]) {
 								deleg = true
 							}
 						}
@@ -395,6 +425,37 @@ func checkC05(P *Program, r *Result, tier string) {
 							r.add("ROOM", shortName(fn), "return", "delegates to the slow path with the same n (its post-condition carries over)", P.pos(instrPos(ret)), true, "")
 							continue
 						}
+					}
+				}
+				// a routine that never touches the buffer itself and ends on a call of an acquire routine with its own n
+				if rc.ver == nil {
+					deleg := false
+					for _, c := range callsIn(fn) {
+						cc, isCall := c.(*ssa.Call)
+						if !isCall || !instrDominates(cc, ret) || len(cc.Common().Args) < 2 || cc.Common().Args[1] != ssa.Value(fn.Params[1]) || cc.Common().Args[0] != ssa.Value(fn.Params[0]) {
+							continue
+						}
+						isAcq := false
+						for _, a := range acquires {
+							if cc.Common().StaticCallee() == a && a != fn {
+								isAcq = true
+							}
+						}
+						if !isAcq {
+							continue
+						}
+						later := reachesWithout(cc, ret, func(in ssa.Instruction) bool {
+							_, isC := in.(ssa.CallInstruction)
+							_, isS := in.(*ssa.Store)
+							return isC || isS
+						})
+						if later {
+							deleg = true
+						}
+					}
+					if deleg {
+						r.add("ROOM", shortName(fn), "return", "delegates to the slow path with the same n (its post-condition carries over)", P.pos(instrPos(ret)), true, "")
+						continue
 					}
 				}
 				var cur *SliceDesc
@@ -481,7 +542,9 @@ func checkC05(P *Program, r *Result, tier string) {
 				if !instrDominates(w, ret) {
 					continue
 				}
-				if c, ok := fa.nilExpand(ret.Results[0]).constVal(); !ok || c.Sign() != 0 {
+				if c, ok := fa.nilExpand(ret.Results[0]).constVal(); ok && c.Sign() != 0 {
+					continue
+				} else if !ok && fa.prove(ineqGE(fa.nilExpand(ret.Results[0]), linConst(1)), ret.Block(), rootCtx) {
 					continue
 				}
 				okNil := true
@@ -588,24 +651,34 @@ func checkC05(P *Program, r *Result, tier string) {
 	// stored error is what is returned — whatever the control-flow shape (if/return, switch, merged tails).
 	for _, name := range []string{"Malloc", "WriteBinary", "Flush"} {
 		fn := ms[name]
-		fa := A.fa(fn)
-		ok := false
-		detail := "no test of the stored error guards the method"
-		key := "P:" + fn.Params[0].Name() + ".err"
-		for _, b := range fn.Blocks {
-			for _, in := range b.Instrs {
-				bo, isB := in.(*ssa.BinOp)
-				if !isB || (bo.Op != token.NEQ && bo.Op != token.EQL) || !isNilConst(bo.Y) || !isLoadOfField(fn, bo.X, "err") {
+		ok, detail := stickyCore(P, A, fn, nil)
+		if !ok {
+			// the shared-prologue form: the method starts by calling a helper on the same receiver that does the
+			// stored-error test itself, hands back the stored error, and everything else happens only when the
+			// helper reported nil
+			for _, c := range callsIn(fn) {
+				cc, isCall := c.(*ssa.Call)
+				cal := c.Common().StaticCallee()
+				if !isCall || cal == nil || !inRepo(cal) || cal.Blocks == nil || len(c.Common().Args) == 0 || c.Common().Args[0] != ssa.Value(fn.Params[0]) || cal == fn {
 					continue
 				}
-				if v := fa.mem.versionAt(bo.X.(ssa.Instruction), key); v != nil && v.Kind != mEntry {
+				ei := errIndex(cal)
+				if ei < 0 || len(cal.Params) == 0 {
 					continue
 				}
-				nilTruth := bo.Op == token.EQL // truth value of the test that means "no stored error"
+				if okH, _ := stickyCore(P, A, cal, nil); !okH {
+					continue
+				}
+				ev := resultValue(cc, ei)
+				if ev == nil {
+					continue
+				}
 				clean := true
-				why := ""
 				for _, b2 := range fn.Blocks {
 					for _, in2 := range b2.Instrs {
+						if in2 == ssa.Instruction(cc) {
+							continue
+						}
 						effect := false
 						switch x := in2.(type) {
 						case *ssa.Store:
@@ -617,36 +690,27 @@ func checkC05(P *Program, r *Result, tier string) {
 								effect = true
 							}
 						}
-						if effect && !guardedBy(in2, bo, nilTruth) {
+						if effect && !guardedNil(in2, ev) {
 							clean = false
-							why = "an effect at " + P.pos(instrPos(in2)) + " is not guarded by the stored-error test"
 						}
 					}
 				}
+				// on the side where the helper reported an error, that error is what is returned
 				retOK := false
-				for _, rc := range retCases(fn) {
-					onErrSide := guardedBy(rc.at, bo, !nilTruth)
-					if iff, isIf := rc.at.(*ssa.If); isIf && rc.pred >= 0 && iff.Cond == ssa.Value(bo) {
-						onErrSide = (iff.Block().Succs[0] == rc.ret.Block()) == !nilTruth
-					}
-					if !onErrSide {
-						continue
-					}
-					ev := rc.results[len(rc.results)-1]
-					if isLoadOfField(fn, ev, "err") {
-						retOK = true
-					} else {
-						retOK = false
-						why = "the stored error is not what is returned at " + P.pos(instrPos(rc.ret))
-						break
+				_, neq := nilTests(ev)
+				for _, t := range neq {
+					for _, rc := range retCases(fn) {
+						if guardedBy(rc.at, t, true) {
+							retOK = rc.results[len(rc.results)-1] == ev
+							if !retOK {
+								break
+							}
+						}
 					}
 				}
 				if clean && retOK {
 					ok, detail = true, ""
-				} else if why != "" {
-					detail = why
-				} else if !retOK {
-					detail = "no return hands back the stored error"
+					r.Funcs[shortName(cal)] = true
 				}
 			}
 		}
@@ -698,6 +762,7 @@ func checkC05(P *Program, r *Result, tier string) {
 		}
 		r.add("PUBLISH", shortName(fn), "store", "the publication target is the caller's slice pointer", P.pos(fn.Pos()), flush, "")
 	}
+	ringRule(P, r, "RING")
 	r.assume("mcache.Malloc(size[, cap]) returns len = size, cap ≥ max(size, cap); dirtmake.Bytes(l, c) returns len = l, cap = c (dependency summaries)")
 	r.assume("io.Writer.Write does not retain or modify p (io.Writer contract); distinct receiver fields do not alias")
 }
@@ -866,4 +931,194 @@ func fieldInits(fn *ssa.Function, field string, depth int) []ssa.Value {
 		}
 	}
 	return out
+}
+
+// ringRule: a fixed-size array field indexed by an integer field of the same
+// struct (the reader's and writer's size statistics): the index field keeps the
+// object invariant 0 ≤ idx < N — assumed on entry of every method of the type,
+// proved at every index expression into the array and at every way out — and
+// nothing outside the type's methods writes it. Release and Flush go through
+// it, so a stray index is a panic in the middle of either.
+func ringRule(P *Program, r *Result, rule string) {
+	type ring struct {
+		named      *types.Named
+		arr, idx   int // field numbers
+		n          int64
+		idxName    string
+		indexSites int
+	}
+	rings := map[*types.Named]*ring{}
+	fns := []*ssa.Function{}
+	for _, fn := range repoFuncs(P) {
+		if fnPkgPath(fn) == modPath+"/"+relBufiox {
+			fns = append(fns, fn)
+		}
+	}
+	structOf := func(v ssa.Value) *types.Named {
+		if pt, ok := v.Type().Underlying().(*types.Pointer); ok {
+			if n, ok := pt.Elem().(*types.Named); ok {
+				if _, isS := n.Underlying().(*types.Struct); isS {
+					return n
+				}
+			}
+		}
+		return nil
+	}
+	// discover: &recv.arr[ load(recv.idx) ]
+	for _, fn := range fns {
+		for _, b := range fn.Blocks {
+			for _, in := range b.Instrs {
+				ia, ok := in.(*ssa.IndexAddr)
+				if !ok {
+					continue
+				}
+				af, ok := ia.X.(*ssa.FieldAddr)
+				if !ok {
+					continue
+				}
+				at, ok := deref(af.Type()).Underlying().(*types.Array)
+				if !ok {
+					continue
+				}
+				ld, ok := ia.Index.(*ssa.UnOp)
+				if !ok || ld.Op != token.MUL {
+					continue
+				}
+				xf, ok := ld.X.(*ssa.FieldAddr)
+				if !ok || xf.X != af.X {
+					continue
+				}
+				n := structOf(af.X)
+				if n == nil {
+					continue
+				}
+				if rings[n] == nil {
+					rings[n] = &ring{named: n, arr: af.Field, idx: xf.Field, n: at.Len(), idxName: n.Underlying().(*types.Struct).Field(xf.Field).Name()}
+				}
+			}
+		}
+	}
+	if !r.require("bufiox: an array field indexed by an index field (the size statistics ring)", len(rings) > 0) {
+		return
+	}
+	A := newAnalysis(P)
+	for _, rg := range rings {
+		for _, fn := range fns {
+			isMethod := fn.Signature.Recv() != nil && len(fn.Params) > 0 && structOf(fn.Params[0]) == rg.named
+			// who writes the index field
+			for _, b := range fn.Blocks {
+				for _, in := range b.Instrs {
+					st, ok := in.(*ssa.Store)
+					if !ok {
+						continue
+					}
+					if xf, ok := st.Addr.(*ssa.FieldAddr); ok && xf.Field == rg.idx && structOf(xf.X) == rg.named && !(isMethod && xf.X == ssa.Value(fn.Params[0])) {
+						k, isC := constInt(st.Val)
+						r.add(rule, shortName(fn), "ring-writer", "the ring index "+rg.idxName+" is set outside its type's methods only to a constant inside the ring", P.pos(instrPos(st)), isC && k >= 0 && k < rg.n, "")
+					}
+				}
+			}
+			if !isMethod {
+				continue
+			}
+			r.Funcs[shortName(fn)] = true
+			fa := A.fa(fn)
+			entry := cellIntEntry(fa, rg.idxName)
+			ctx := rootCtx
+			if entry != nil {
+				ctx = rootCtx.with([]*Lin{ineqGE(entry, linConst(0)), ineqLE(entry, linConst(rg.n-1))}, nil)
+			}
+			for _, b := range fn.Blocks {
+				for _, in := range b.Instrs {
+					switch x := in.(type) {
+					case *ssa.IndexAddr:
+						af, ok := x.X.(*ssa.FieldAddr)
+						if !ok || af.Field != rg.arr || af.X != ssa.Value(fn.Params[0]) {
+							continue
+						}
+						rg.indexSites++
+						i := fa.expand(x.Index)
+						ok = fa.prove(ineqGE(i, linConst(0)), b, ctx) && fa.prove(ineqLE(i, linConst(rg.n-1)), b, ctx)
+						r.add(rule, shortName(fn), "ring-index", fmt.Sprintf("the index into the %d-slot ring is inside it (given 0 ≤ %s < %d on entry)", rg.n, rg.idxName, rg.n), P.pos(instrPos(x)), ok, "")
+					case *ssa.Return:
+						v := cellIntAt(fa, x, rg.idxName)
+						if v == nil || entry == nil {
+							continue
+						}
+						ok := fa.prove(ineqGE(v, linConst(0)), b, ctx) && fa.prove(ineqLE(v, linConst(rg.n-1)), b, ctx)
+						r.add(rule, shortName(fn), "ring-keep", fmt.Sprintf("0 ≤ %s < %d holds again on the way out", rg.idxName, rg.n), P.pos(instrPos(x)), ok, "")
+					}
+				}
+			}
+		}
+		r.require("index expressions into the ring", rg.indexSites > 0)
+	}
+}
+
+// stickyCore: a test of the receiver's err field (as it was on entry) guards every
+// effect of fn, and on its non-nil side the stored error is what is returned.
+func stickyCore(P *Program, A *Analysis, fn *ssa.Function, _ interface{}) (bool, string) {
+	fa := A.fa(fn)
+	ok := false
+	detail := "no test of the stored error guards the method"
+	key := "P:" + fn.Params[0].Name() + ".err"
+	for _, b := range fn.Blocks {
+		for _, in := range b.Instrs {
+			bo, isB := in.(*ssa.BinOp)
+			if !isB || (bo.Op != token.NEQ && bo.Op != token.EQL) || !isNilConst(bo.Y) || !isLoadOfField(fn, bo.X, "err") {
+				continue
+			}
+			if v := fa.mem.versionAt(bo.X.(ssa.Instruction), key); v != nil && v.Kind != mEntry {
+				continue
+			}
+			nilTruth := bo.Op == token.EQL // truth value of the test that means "no stored error"
+			clean := true
+			why := ""
+			for _, b2 := range fn.Blocks {
+				for _, in2 := range b2.Instrs {
+					effect := false
+					switch x := in2.(type) {
+					case *ssa.Store:
+						if k := pathOf(x.Addr); !privatePath(k) {
+							effect = true
+						}
+					case ssa.CallInstruction:
+						if _, isBuiltin := x.Common().Value.(*ssa.Builtin); !isBuiltin {
+							effect = true
+						}
+					}
+					if effect && !guardedBy(in2, bo, nilTruth) {
+						clean = false
+						why = "an effect at " + P.pos(instrPos(in2)) + " is not guarded by the stored-error test"
+					}
+				}
+			}
+			retOK := false
+			for _, rc := range retCases(fn) {
+				onErrSide := guardedBy(rc.at, bo, !nilTruth)
+				if iff, isIf := rc.at.(*ssa.If); isIf && rc.pred >= 0 && iff.Cond == ssa.Value(bo) {
+					onErrSide = (iff.Block().Succs[0] == rc.ret.Block()) == !nilTruth
+				}
+				if !onErrSide {
+					continue
+				}
+				ev := rc.results[len(rc.results)-1]
+				if isLoadOfField(fn, ev, "err") {
+					retOK = true
+				} else {
+					retOK = false
+					why = "the stored error is not what is returned at " + P.pos(instrPos(rc.ret))
+					break
+				}
+			}
+			if clean && retOK {
+				ok, detail = true, ""
+			} else if why != "" {
+				detail = why
+			} else if !retOK {
+				detail = "no return hands back the stored error"
+			}
+		}
+	}
+	return ok, detail
 }
